@@ -63,6 +63,8 @@
              a build under a schedule: res = HistParDefs.presult (done = a valid complete execution; the state goes on from
              it), acc = number of events accepted (par_accepted: the index of the first refused event), run = the commands
              in the order they FINISHED; bfok / bf = HistFaithful.build_f from the same state, conf = same contents as it
+      (F, K and I steps are run by the CleanNode-faithful loops of HistFailFaithful.v -- buildF_full_f, buildK_full_f,
+       buildI_full_f --; oldok= / old= on those lines are acceptance and commands of the original loop from the same state)
       | K ok=<0|1> hit=<0|1> ts= run=.. nodes=..   killed invocation (HistCrashDefs.buildK_full): hit = the kill fell into a
              statement that was started (otherwise between two statements / after the last); run = commands started
       | I ok=<0|1> hit=<0|1> exit=<130|0|1> ts= run=.. nodes=..   interrupted invocation (HistCrashDefs.buildI_full)
@@ -80,8 +82,8 @@
         record: its mtime and the recorded nodes ("-:-" = no record, "<m>:-" = a record with no nodes)
 
    `histf` (HistDepfileDefs.v): the `histd` line, where deps kind 1 is a DEPFILE-ONLY statement (depfile = X without deps =;
-   its hidden reads in H= as well) next to kind 2 (deps = gcc); a Build step is HistDepfileDefs.fbuild (there is no
-   CleanNode-faithful variant of it: restat pruning by re-scan, dirty_now_d).  Additional step  D<e> = DeleteDepfile e (the
+   its hidden reads in H= as well) next to kind 2 (deps = gcc); a Build step is HistDepfileFaithful.fbuild_f (CleanNode
+   followed literally), with HistDepfileDefs.fbuild from the same state next to it (oldok= old=).  Additional step  D<e> = DeleteDepfile e (the
    user removes the depfile of statement e).  Header: frag=<frag_ABD (to_log g) hid> (what the definitions need)
    abf=<frag_ABF: no deps = gcc statement, where the theorems are> topo= fragi= hro= nru= (both on to_log g) nip=
    hok=<fhist_ok> hp=<hist_present_f of the plain steps>.  Per Build:
@@ -279,14 +281,17 @@ let hist_line (direct : bool) (l : string) : string =
               | 'u' -> FailUntouched | 'd' -> FailDeleted
               | 'w' -> FailWrote (fun o -> n_of_int (c + int_of_nat o))
               | _ -> failwith "bad fault kind")) fs in
-        (match buildF_full cmdf g !st t faults with
+        (* HistFailFaithful.buildF_full_f (CleanNode-faithful); HistFailDefs.buildF_full from the same state next to it (old=) *)
+        let (ook, orun) = match buildF_full cmdf g !st t faults with
+          | Some (st', _) -> (true, trace_delta !st st') | None -> (false, []) in
+        (match buildF_full_f cmdf g !st t faults with
          | Some (st', r) ->
            let (failed, fe) = match r with Some ((e, _), _) -> (true, string_of_int (int_of_nat e)) | None -> (false, "-") in
-           Buffer.add_string buf (Printf.sprintf " | F ok=1 failed=%s fe=%s ts=%s run=%s nodes=%s" (b failed) fe (b ts)
-                                    (es (trace_delta !st st')) (show_nodes st'));
+           Buffer.add_string buf (Printf.sprintf " | F ok=1 failed=%s fe=%s ts=%s run=%s oldok=%s old=%s nodes=%s" (b failed) fe (b ts)
+                                    (es (trace_delta !st st')) (b ook) (es orun) (show_nodes st'));
            st := st'
          | None ->
-           Buffer.add_string buf (Printf.sprintf " | F ok=0 failed=0 fe=- ts=%s run=- nodes=%s" (b ts) (show_nodes !st)))
+           Buffer.add_string buf (Printf.sprintf " | F ok=0 failed=0 fe=- ts=%s run=- oldok=%s old=%s nodes=%s" (b ts) (b ook) (es orun) (show_nodes !st)))
       | KB (t, pos, a, cnt, base) ->
         let ts = taint_safe g !st in
         let mk f = { cp_pos = nat_of_int pos;
@@ -299,15 +304,17 @@ let hist_line (direct : bool) (l : string) : string =
            contents are those of a successful run, i.e. cmd e h (reads stk e) for the state stk the statement is started in,
            which buildK_full itself reports (first pass with placeholder contents) *)
         let f = if a <> 'w' then garbage else
-            match buildK_full cmdf g !st t (mk garbage) with
+            match buildK_full_f cmdf g !st t (mk garbage) with
             | Some (_, Some ((e, _), stk)) -> let sn = reads g stk e in let h = stk.h_hash e in (fun o -> cmdf e h sn o)
             | _ -> garbage in
-        (match buildK_full cmdf g !st t (mk f) with
+        let (ook, orun) = match buildK_full cmdf g !st t (mk f) with
+          | Some (st', _) -> (true, trace_delta !st st') | None -> (false, []) in
+        (match buildK_full_f cmdf g !st t (mk f) with
          | Some (st', r) ->
-           Buffer.add_string buf (Printf.sprintf " | K ok=1 hit=%s ts=%s run=%s nodes=%s" (b (r <> None)) (b ts)
-                                    (es (trace_delta !st st')) (show_nodes st'));
+           Buffer.add_string buf (Printf.sprintf " | K ok=1 hit=%s ts=%s run=%s oldok=%s old=%s nodes=%s" (b (r <> None)) (b ts)
+                                    (es (trace_delta !st st')) (b ook) (es orun) (show_nodes st'));
            st := st'
-         | None -> Buffer.add_string buf (Printf.sprintf " | K ok=0 hit=0 ts=%s run=- nodes=%s" (b ts) (show_nodes !st)))
+         | None -> Buffer.add_string buf (Printf.sprintf " | K ok=0 hit=0 ts=%s run=- oldok=%s old=%s nodes=%s" (b ts) (b ook) (es orun) (show_nodes !st)))
       | PB (t, j, sched) ->
         (* one invocation under the schedule the engine's -j N run took (HistParDefs.par_run); next to it the sequential
            faithful loop from the same state: same commands, same contents (confluence).  The history goes on from the
@@ -334,12 +341,14 @@ let hist_line (direct : bool) (l : string) : string =
       | IB (t, pos, k, base) ->
         let ts = taint_safe g !st in
         let ip = { ip_pos = nat_of_int pos; ip_k = nat_of_int k; ip_f = (fun o -> n_of_int (base + int_of_nat o)) } in
-        (match buildI_full cmdf g !st t ip with
+        let (ook, orun) = match buildI_full cmdf g !st t ip with
+          | Some (st', _) -> (true, trace_delta !st st') | None -> (false, []) in
+        (match buildI_full_f cmdf g !st t ip with
          | Some (st', r) ->
-           Buffer.add_string buf (Printf.sprintf " | I ok=1 hit=%s exit=%d ts=%s run=%s nodes=%s" (b (r <> None))
-                                    (if r <> None then 130 else 0) (b ts) (es (trace_delta !st st')) (show_nodes st'));
+           Buffer.add_string buf (Printf.sprintf " | I ok=1 hit=%s exit=%d ts=%s run=%s oldok=%s old=%s nodes=%s" (b (r <> None))
+                                    (if r <> None then 130 else 0) (b ts) (es (trace_delta !st st')) (b ook) (es orun) (show_nodes st'));
            st := st'
-         | None -> Buffer.add_string buf (Printf.sprintf " | I ok=0 hit=0 exit=1 ts=%s run=- nodes=%s" (b ts) (show_nodes !st))))
+         | None -> Buffer.add_string buf (Printf.sprintf " | I ok=0 hit=0 exit=1 ts=%s run=- oldok=%s old=%s nodes=%s" (b ts) (b ook) (es orun) (show_nodes !st))))
     steps;
   Buffer.contents buf
 
@@ -466,11 +475,13 @@ let histf_line (l : string) : string =
       match s with
       | `X -> fs := flift (fun ds -> List.fold_left drop_deps ds nodes) !fs
       | `F (FS (Build t)) ->
-        (match fbuild mcmd g hid !fs t with
+        let (ook, orun) = match fbuild mcmd g hid !fs t with
+          | Some fs' -> (true, trace_delta !fs.f_ds.d_h fs'.f_ds.d_h) | None -> (false, []) in
+        (match fbuild_f mcmd g hid !fs t with
          | Some fs' ->
-           Buffer.add_string buf (Printf.sprintf " | B ok=1 ts=1 run=%s %s" (es (trace_delta !fs.f_ds.d_h fs'.f_ds.d_h)) (show fs'));
+           Buffer.add_string buf (Printf.sprintf " | B ok=1 ts=1 run=%s oldok=%s old=%s %s" (es (trace_delta !fs.f_ds.d_h fs'.f_ds.d_h)) (b ook) (es orun) (show fs'));
            fs := fs'
-         | None -> Buffer.add_string buf (Printf.sprintf " | B ok=0 ts=1 run=- %s" (show !fs)))
+         | None -> Buffer.add_string buf (Printf.sprintf " | B ok=0 ts=1 run=- oldok=%s old=%s %s" (b ook) (es orun) (show !fs)))
       | `F s -> fs := fapply_step mcmd g hid !fs s) xsteps;
   Buffer.contents buf
 
